@@ -79,6 +79,12 @@ Definition dval (P b : Z) (v : nat -> Z) (T : Z) (rsz : nat) : Z :=
 Lemma vin_zero (a : list Z) (lsh : Z) (t : nat) : (length a <= t)%nat -> vin a lsh t = 0.
 Proof. intros Ht. unfold vin. destruct (Nat.ltb_spec t (length a)); [lia|reflexivity]. Qed.
 
+Lemma dgz_nonneg (b : Z) (v : nat -> Z) (t : Z) : 0 <= t -> dgz b v t = dig b v 0 (Z.to_nat t).
+Proof. intros Ht. unfold dgz. destruct (Z.ltb_spec t 0); [lia|reflexivity]. Qed.
+
+Lemma dgz_neg (b : Z) (v : nat -> Z) (t : Z) : t < 0 -> dgz b v t = 0.
+Proof. intros Ht. unfold dgz. destruct (Z.ltb_spec t 0); [reflexivity|lia]. Qed.
+
 Section Value.
 Variable b : Z.
 Hypothesis Hb : 1 <= b.
@@ -114,12 +120,6 @@ Proof.
   - exists 0. replace m with (n + (m - n))%nat at 1 by lia. rewrite sumn_add.
     rewrite (sumn_zero (m - n)); [lia|]. intros t Ht. rewrite Hv by lia. lia.
 Qed.
-
-Lemma dgz_nonneg (t : Z) : 0 <= t -> dgz b v t = dig b v 0 (Z.to_nat t).
-Proof. intros Ht. unfold dgz. destruct (Z.ltb_spec t 0); [lia|reflexivity]. Qed.
-
-Lemma dgz_neg (t : Z) : t < 0 -> dgz b v t = 0.
-Proof. intros Ht. unfold dgz. destruct (Z.ltb_spec t 0); [reflexivity|lia]. Qed.
 
 (* the window value, relative to the exact value 2^(P - T b) * S n, modulo 2^P *)
 Theorem dval_value (P T : Z) (rsz : nat) : zn rsz * b <= P -> 0 <= P - T * b ->
